@@ -426,6 +426,9 @@ fn classify(r: &HttpResp, op: &ReqOp, srv: &Server, stats: &mut Stats) -> String
     ];
     let extra = r.headers.iter().filter(|(n, _)| n.starts_with("access-control-") && !known.contains(&n.as_str())).count();
     let acx = if extra == 0 { "-".to_string() } else { extra.to_string() };
+    // further response headers that grant something to other origins
+    let xo_n = r.headers.iter().filter(|(n, _)| n == "timing-allow-origin" || n == "cross-origin-resource-policy").count();
+    let xo = if xo_n == 0 { "-".to_string() } else { xo_n.to_string() };
     let text = String::from_utf8_lossy(&r.body);
     let body = if r.body.is_empty() {
         "empty"
@@ -448,12 +451,12 @@ fn classify(r: &HttpResp, op: &ReqOp, srv: &Server, stats: &mut Stats) -> String
     }
     stats.bump(&format!("resp_status_{}", r.status));
     stats.bump(&format!("resp_body_{body}"));
-    if acao != "-" || acam != "-" || acma != "-" || acah != "-" || acx != "-" {
+    if acao != "-" || acam != "-" || acma != "-" || acah != "-" || acx != "-" || xo != "-" {
         stats.bump("resp_with_cors_header");
     } else {
         stats.bump("resp_without_cors_header");
     }
-    format!("r status={} acao={acao} acam={acam} acma={acma} acah={acah} acx={acx} body={body}", r.status)
+    format!("r status={} acao={acao} acam={acam} acma={acma} acah={acah} acx={acx} xo={xo} body={body}", r.status)
 }
 
 /// one connection of a case
